@@ -1,5 +1,9 @@
 import VOPyVerif.Drv.Proto
 import VOPyVerif.Model.Steps
+import VOPyVerif.Model.Rect
+import VOPyVerif.Model.Ellipsoid
+import VOPyVerif.Model.Covered
+import VOPyVerif.Model.Pessimistic
 /-! Driver front end for property C02 (elimination exactly on a confidence-region certificate).
 
 Index sets are comma-separated naturals (`_` = empty) **without duplicates**, in the iteration
@@ -16,6 +20,23 @@ Centres / width rows are matrices (`;`-separated rows of `num/den`), all rows of
 * `elim_paveba <S> <P> <U> <n> <dom> <cov>`  → `S − (S' ∪ P')` after discarding + pareto_updating
 * `elim_vogp <S> <P> <n> <dom> <cov> <pess>` → `S − (S' ∪ P')` after discarding + epsiloncovering
 * `elim_auer <eps> <S> <P> <centres> <widths>` → `S − (S' ∪ P')` after Auer's round, widths by design
+
+**Exact geometry** (real-geometry stream; shared with driver_c03): oracle tables recomputed from the
+exported displayed regions by the models of C09 (`Rect.isDominatedTol`, `Ellipsoid.isDominatedTol`),
+C10 (`Covered.rectIsCoveredTol`, `ballIsCoveredTol`, `ellVerdict`) and C11 (`Pess.isPtIn`), each
+decided twice with the per-facet margin moved by `±tau`.  A table is the row-major `n·n` string over
+`1` / `0` (robust: both verdicts agree), `?` (borderline or no certificate), `E` (the code's
+`ValueError` slack guard); pairs outside `active` and the diagonal are `0`.
+
+* `geomrect <W> <L> <U> <active> <sdom> <scov> <tau> <pess01>` → `dom|cov|pess` for rectangles
+  (`L`, `U`: matrices of lower / upper bounds, one row per design; `pess` is `_` when not requested;
+  `pess[j][i]` = `check_dominates(R_j, R_i)`)
+* `geomelldom <W> <C> <Sigmas> <alphas> <active> <sdom> <tau>` → `dom` for ellipsoids
+  (`Sigmas`: `|`-separated matrices)
+* `geomballcov <W> <C> <alphas> <active> <scov> <tau>` → `cov` for balls (Σ = I, PaVeBa)
+* `ellcov <W> <c1> <L1> <a1> <c2> <L2> <a2> <slack> <tau> <u1> <u2> <lam>` → `1`/`0`/`inconclusive`/
+  `ValueError`: `Covered.ellVerdict` for one pair with per-facet slack `slack + tau` and numerically
+  proposed certificates (`L Lᵀ = Σ` exactly; `_` for a missing certificate)
 -/
 namespace VOPy.Drv.C02
 open VOPy VOPy.Proto VOPy.Steps
@@ -53,7 +74,113 @@ def sameDim (a b : List Vec) : Bool :=
   | x :: _, y :: _ => x.length == y.length
   | _, _ => true
 
+/-! ## exact geometry tables -/
+
+/-- three-valued entry from the two band verdicts -/
+def tri (a b : Option Bool) : Char :=
+  match a, b with
+  | some true, some true => '1'
+  | some false, some false => '0'
+  | _, _ => '?'
+
+def verdictB : Covered.Verdict → Option Bool
+  | .yes => some true
+  | .no => some false
+  | .inconclusive => none
+
+/-- `check_dominates(R₁, R₂)` (exact-arithmetic model of C11) with every facet coordinate of the
+tested vertices of `R₁` moved by `t`; monotone in `t`, `t = 0` is `Pess.checkDominates`. -/
+def checkDomTol (W : Mat) (l1 u1 l2 u2 : Vec) (t : Rat) : Bool :=
+  let verts1 := (Pess.vertices l1 u1).map (matVec W)
+  let verts2 := (Pess.vertices l2 u2).map (matVec W)
+  verts1.all fun p => Pess.isPtIn Pess.exact false (p.map (· + t)) verts2
+
+def triTable (n : Nat) (active : List Nat) (f : Nat → Nat → Char) : String :=
+  if n = 0 then "_" else
+  String.ofList ((List.range (n * n)).map fun k =>
+    let i := k / n
+    let j := k % n
+    if i != j && active.contains i && active.contains j then f i j else '0')
+
+def rectTables (W : Mat) (L U : List Vec) (active : List Nat) (sdom scov : Vec) (tau : Rat)
+    (wantPess : Bool) : String :=
+  let n := L.length
+  let get := fun (M : List Vec) i => M.getD i []
+  let m := Covered.ncols W
+  let dom := triTable n active fun i j =>
+    match Rect.expandSlack m sdom with
+    | none => 'E'
+    | some s =>
+      tri (some (Rect.isDominatedTol W (get L i) (get U i) (get L j) (get U j) s tau))
+          (some (Rect.isDominatedTol W (get L i) (get U i) (get L j) (get U j) s (-tau)))
+  let cov := triTable n active fun i j =>
+    match Covered.rectIsCoveredTol W (get L i) (get U i) (get L j) (get U j) scov tau,
+          Covered.rectIsCoveredTol W (get L i) (get U i) (get L j) (get U j) scov (-tau) with
+    | some a, some b => tri (verdictB a) (verdictB b)
+    | _, _ => 'E'
+  let pess := if wantPess then triTable n active fun i j =>
+      tri (some (checkDomTol W (get L i) (get U i) (get L j) (get U j) tau))
+          (some (checkDomTol W (get L i) (get U i) (get L j) (get U j) (-tau)))
+    else "_"
+  dom ++ "|" ++ cov ++ "|" ++ pess
+
+def ellDomTable (W : Mat) (C : List Vec) (S : List Mat) (A : Vec) (active : List Nat) (sdom : Vec)
+    (tau : Rat) : String :=
+  triTable C.length active fun i j =>
+    match Ellipsoid.expandSlack W.length sdom with
+    | none => 'E'
+    | some s =>
+      tri (some (Ellipsoid.isDominatedTol W (C.getD i []) (S.getD i []) (A.getD i 0)
+            (C.getD j []) (S.getD j []) (A.getD j 0) s tau))
+          (some (Ellipsoid.isDominatedTol W (C.getD i []) (S.getD i []) (A.getD i 0)
+            (C.getD j []) (S.getD j []) (A.getD j 0) s (-tau)))
+
+def ballCovTable (W : Mat) (C : List Vec) (A : Vec) (active : List Nat) (scov : Vec) (tau : Rat) :
+    String :=
+  triTable C.length active fun i j =>
+    match Covered.ballIsCoveredTol W (C.getD i []) (A.getD i 0) (C.getD j []) (A.getD j 0) scov tau,
+          Covered.ballIsCoveredTol W (C.getD i []) (A.getD i 0) (C.getD j []) (A.getD j 0) scov (-tau) with
+    | some a, some b => tri (verdictB a) (verdictB b)
+    | _, _ => 'E'
+
+/-- the geometry ops (shared by driver_c02 and driver_c03); `none` = not a geometry op -/
+def geomHandle (args : List String) : Option String :=
+  match args with
+  | ["geomrect", w, l, u, a, sd, sc, t, p] =>
+    some (match parseMat w, parseMat l, parseMat u, parseNats a, parseVec sd, parseVec sc, parseRat t,
+        parseBool p with
+    | some W, some L, some U, some act, some sd, some sc, some tau, some wp =>
+      if L.length ≠ U.length || !act.all (· < L.length) then bad
+      else rectTables W L U act sd sc tau wp
+    | _, _, _, _, _, _, _, _ => bad)
+  | ["geomelldom", w, c, sg, al, a, sd, t] =>
+    some (match parseMat w, parseMat c, parseMats sg, parseVec al, parseNats a, parseVec sd, parseRat t with
+    | some W, some C, some S, some A, some act, some sd, some tau =>
+      if C.length ≠ S.length || C.length ≠ A.length || !act.all (· < C.length) then bad
+      else ellDomTable W C S A act sd tau
+    | _, _, _, _, _, _, _ => bad)
+  | ["geomballcov", w, c, al, a, sc, t] =>
+    some (match parseMat w, parseMat c, parseVec al, parseNats a, parseVec sc, parseRat t with
+    | some W, some C, some A, some act, some sc, some tau =>
+      if C.length ≠ A.length || !act.all (· < C.length) then bad
+      else ballCovTable W C A act sc tau
+    | _, _, _, _, _, _ => bad)
+  | ["ellcov", w, c1, l1, a1, c2, l2, a2, s, tau, u1, u2, lam] =>
+    some (match parseMat w, parseVec c1, parseMat l1, parseRat a1, parseVec c2, parseMat l2, parseRat a2 with
+    | some W, some c1, some L1, some a1, some c2, some L2, some a2 =>
+      match parseVec s, parseRat tau, parseVec u1, parseVec u2, parseVec lam with
+      | some s, some tau, some u1, some u2, some lam =>
+        match Covered.expandSlack W.length s with
+        | none => "ValueError"
+        | some t => (Covered.ellVerdict W c1 L1 a1 c2 L2 a2 (t.map (· + tau)) u1 u2 lam).toString
+      | _, _, _, _, _ => bad
+    | _, _, _, _, _, _, _ => bad)
+  | _ => none
+
 def handle (args : List String) : String :=
+  match geomHandle args with
+  | some ans => ans
+  | none =>
   match args with
   | ["paveba", s, u, n, d] =>
     match parseTable n d with
